@@ -326,7 +326,7 @@ Theorem astep_step : forall w o, Inv w ->
   end.
 Proof.
   intros w o I. unfold wtarget.
-  destruct o as [|i|i s k|i s r|i s|k0 ks|i k0 ks|i|i s|i s j t|i j ms|i j]; cbn [atarget astep].
+  destruct o as [|i|i s k|i s r|i s|k0 ks|i k0 ks|i|i s|i s j t|i j ms|i j|i s r]; cbn [atarget astep].
   - intros x. apply new_doc_with_step; assumption.
   - destruct (hdl w i) as [d|] eqn:H; [|intros x; apply step_refl; assumption].
     apply add_sub_step; [assumption | eapply hdl_owner; eassumption].
@@ -370,6 +370,23 @@ Proof.
     destruct (hdl w j) as [e|]; [|apply step_refl; assumption].
     destruct (subs_of w e); [|apply step_refl; assumption].
     apply add_sub_step; [assumption | eapply hdl_owner; eassumption].
+  - destruct (hdl w i) as [d|] eqn:H; [|intros x; apply step_refl; assumption].
+    pose proof (hdl_owner _ _ _ I H) as Hd.
+    destruct (cont w d s) as [b|] eqn:C; [|apply step_refl; assumption].
+    pose proof (cont_owner _ _ _ _ I Hd C) as Hb.
+    destruct (nth_error (recs_of w b) r) as [x|] eqn:N; [|apply step_refl; assumption].
+    assert (Hx : owner_of w x = Some d) by (rewrite (rec_owner w b x I); [assumption | eapply nth_error_In; exact N]).
+    destruct (aget w x) as [[|ob v|]|] eqn:G; try (apply step_refl; assumption).
+    assert (Hob : owner_of w ob = Some d) by (rewrite (inv_ptr _ I _ _ _ G); [assumption | left; reflexivity]).
+    assert (S1 : Step d w (alloc w [ORec ob 0] d)).
+    { apply alloc_step; [assumption | | pose proof (inv_rng _ I _ _ Hd); cbn; lia].
+      intros o p [<-|[]] [<-|[]]. apply owner_alloc_old; assumption. }
+    assert (S2 : Step d (alloc w [ORec ob 0] d) (bump (anext w) (alloc w [ORec ob 0] d))).
+    { apply bump_step; [apply (st_inv _ _ _ S1)|]. replace (anext w) with (anext w + 0) by lia. apply owner_alloc_new; [assumption | cbn; lia]. }
+    pose proof (step_trans _ _ _ _ S1 S2) as S12.
+    destruct (ns_of w ob) as [m|] eqn:M; [|exact S12].
+    eapply step_trans; [exact S12|]. apply bump_step; [apply (st_inv _ _ _ S12)|]. apply (st_own _ _ _ S12).
+    rewrite (ns_owner w ob m I M). assumption.
 Qed.
 
 Theorem astep_inv : forall w o, Inv w -> Inv (astep w o).
@@ -481,3 +498,29 @@ Qed.
 Lemma flattened_with_bundles_is_new : forall w i d s ss, Inv w -> hdl w i = Some d -> subs_of w d = s :: ss ->
   adocs (astep w (AFlattened i)) = adocs w ++ [anext w].
 Proof. intros w i d s ss I H E. cbn [astep]. rewrite H, E. apply (new_doc_with_step 0); assumption. Qed.
+
+(* ------------------------------------------------------------------ record.copy(), then changing the copy *)
+Lemma aget_bump_other : forall w l m, l <> m -> aget (bump l w) m = aget w m.
+Proof.
+  intros w l m N. unfold bump. destruct (aget w l); [|reflexivity]. rewrite aget_write.
+  destruct (Nat.eqb_spec l m); [contradiction | reflexivity].
+Qed.
+
+(* the copy is a new object; changing it writes the copy itself and the manager of the bundle the source record was
+   made for — every object that existed is otherwise as it was, and no container lists the copy *)
+Theorem copy_touch_footprint : forall w i s r d b x ob v,
+  Inv w -> hdl w i = Some d -> cont w d s = Some b -> nth_error (recs_of w b) r = Some x -> aget w x = Some (ORec ob v) ->
+  let w' := astep w (ACopyTouch i s r) in
+  (forall l, l < anext w -> ns_of w ob <> Some l -> aget w' l = aget w l) /\ adocs w' = adocs w.
+Proof.
+  intros w i s r d b x ob v I H C N G w'. subst w'. cbn [astep]. rewrite H, C, N, G.
+  assert (K : forall l, l < anext w -> aget (bump (anext w) (alloc w [ORec ob 0] d)) l = aget w l).
+  { intros l L. rewrite aget_bump_other by lia. apply aget_alloc_old. exact L. }
+  assert (D : adocs (bump (anext w) (alloc w [ORec ob 0] d)) = adocs w).
+  { unfold bump. destruct (aget (alloc w [ORec ob 0] d) (anext w)); reflexivity. }
+  destruct (ns_of w ob) as [m|] eqn:M.
+  - split.
+    + intros l L Nl. assert (Nm : m <> l) by (intros E; apply Nl; rewrite E; reflexivity). rewrite (aget_bump_other _ m l Nm). apply K; assumption.
+    + unfold bump at 1. destruct (aget (bump (anext w) (alloc w [ORec ob 0] d)) m); [cbn; exact D | exact D].
+  - split; [intros l L _; apply K; assumption | exact D].
+Qed.
